@@ -44,7 +44,7 @@ func genC20String(t *rapid.T) []byte {
 	case 4:
 		runes = rapid.IntRange(90, 140).Draw(t, "len")
 	default:
-		runes = rapid.IntRange(200, c20Scale(700, 5000)).Draw(t, "len")
+		runes = rapid.IntRange(200, c20Scale(700, 3000)).Draw(t, "len")
 	}
 	mode := rapid.IntRange(0, 5).Draw(t, "alphabet")
 	var sb strings.Builder
@@ -186,7 +186,7 @@ func execC20Trunc(sc c20TruncScenario) (res pbt.Result) {
 	return res
 }
 
-const c20TruncRule = "strings built from ASCII, 2/3/4-byte, combining and invalid-UTF-8 atoms (homogeneous, mixed, chopped mid-sequence), rune lengths 0-6, 28-37 (around the 32-rune stack buffer), up to 700 (thorough: 5000); limit n >= 0 drawn around the byte length, around the rune count, between both, tiny (0-5) and large. Both notify.TruncateInRunes and notify.TruncateInBytes are judged per case: result size <= n, unchanged+false iff it fits, result (minus marker) is a prefix, valid UTF-8 when the input is, no panic. Non-trivial: at least one of the two functions truncated."
+const c20TruncRule = "strings built from ASCII, 2/3/4-byte, combining and invalid-UTF-8 atoms (homogeneous, mixed, chopped mid-sequence), rune lengths 0-6, 28-37 (around the 32-rune stack buffer), up to 700 (thorough: 3000); limit n >= 0 drawn around the byte length, around the rune count, between both, tiny (0-5) and large. Both notify.TruncateInRunes and notify.TruncateInBytes are judged per case: result size <= n, unchanged+false iff it fits, result (minus marker) is a prefix, valid UTF-8 when the input is, no panic. Non-trivial: at least one of the two functions truncated."
 
 func TestC20Truncate(t *testing.T) {
 	pbt.Run(t, pbt.Spec[c20TruncScenario]{
